@@ -413,7 +413,7 @@ def detSeq (evs : List IEv) : List Nat := evs.filterMap fun e => match e with | 
 def preSeq (evs : List IEv) : List Nat := evs.filterMap fun e => match e with | IEv.p i => some i | _ => none
 
 /-- clauses on the implementation trace -/
-def check (s : Scn) (t : ITrace) : List String := Id.run do
+def check (s : Scn) (t : ITrace) (cgMode : Bool := false) : List String := Id.run do
   let mut v : List String := []
   let mut done : List OpJ := []
   let mut opRes := t.ops
@@ -444,7 +444,7 @@ def check (s : Scn) (t : ITrace) : List String := Id.run do
       else if lastOpFailed && prevOk then v := v ++ ["C13.failed_add_leaves_nothing"]
       else v := v ++ ["C13.lifo_before_base"]
       prevOk := false
-    else if preSeq evs != exp.flatMap (fun p => p.dets ++ p.acts) then
+    else if !cgMode && preSeq evs != exp.flatMap (fun p => p.dets ++ p.acts) then
       v := v ++ ["C13.scoped_replacement"]
     else
       let runEvs := evs.filter fun e => match e with | IEv.p _ => false | _ => true
@@ -467,9 +467,9 @@ def check (s : Scn) (t : ITrace) : List String := Id.run do
 remove the tag for good) the history and its twin without any operation on that tag must show the
 same rulesets in the same order (detector and prerun sequences), the same hook for every probe and
 the same final `oomd.dropin.added` -/
-def checkTwin (k : Nat) (a b : ITrace) : List String :=
+def checkTwin (k : Nat) (a b : ITrace) (cgMode : Bool := false) : List String :=
   let sameFrom (x y : List (List IEv)) (f : List IEv → List Nat) := (x.drop k).map f == (y.drop k).map f
-  (if sameFrom a.ticks b.ticks detSeq && sameFrom a.ticks b.ticks preSeq then [] else ["C13.remove_reversible.order"]) ++
+  (if sameFrom a.ticks b.ticks detSeq && (cgMode || sameFrom a.ticks b.ticks preSeq) then [] else ["C13.remove_reversible.order"]) ++
   (if a.probes.drop k == b.probes.drop k then [] else ["C13.remove_reversible.hooks"]) ++
   (if a.finalStat == b.finalStat then [] else ["C13.remove_reversible.count"])
 
@@ -490,21 +490,27 @@ def handle (j : Json) : Json :=
   let tr := jobj j "t"
   let id := jstr sc "id"
   let s := parseScn sc
-  let impl := parseTrace tr
+  -- scenarios with ruleset-cgroup bases (`tree`): such a ruleset is evaluated through a per-cgroup instance, and both its
+  -- template and the instance are prerun (C11); the prerun events are left out of the comparison and of the clauses there,
+  -- everything about what *runs* (order, replacement, enablement, hooks, counts) is decided as for plain rulesets
+  let cgMode := jhas sc "tree"
+  let noPre (t : ITrace) : ITrace :=
+    if cgMode then { t with ticks := t.ticks.map fun evs => evs.filter fun e => match e with | IEv.p _ => false | _ => true } else t
+  let impl := noPre (parseTrace tr)
   let inv := !(jbool sc "model_unfixed")
-  match runModel s inv with
+  match (runModel s inv).map noPre with
   | none => verdict id (jstr tr "outcome" == "compile-failed") true [] ""
   | some m =>
     let twinOk : Bool × List String :=
       if jhas sc "twin_ticks" then
         let s2 := parseScn sc "twin_ticks"
-        let impl2 := parseTrace (jobj tr "twin")
-        let acc2 := match runModel s2 inv with | some m2 => m2 == impl2 | none => false
-        (acc2, check s2 impl2 ++ checkTwin (jnat sc "twin_from") impl impl2)
+        let impl2 := noPre (parseTrace (jobj tr "twin"))
+        let acc2 := match (runModel s2 inv).map noPre with | some m2 => m2 == impl2 | none => false
+        (acc2, check s2 impl2 cgMode ++ checkTwin (jnat sc "twin_from") impl impl2 cgMode)
       else (true, [])
     let accepts := m == impl && twinOk.1
     -- the scenario's `prop` says whose clauses decide `holds` (C13 by default; C02 runs this engine as a second pass)
-    let viol := if jstr sc "prop" == "C02" then checkC02 impl else (check s impl ++ twinOk.2).eraseDups
+    let viol := if jstr sc "prop" == "C02" then checkC02 impl else (check s impl cgMode ++ twinOk.2).eraseDups
     let firstDiff := ((m.ticks.zip impl.ticks).findIdx? fun (a, b) => a != b).getD (min m.ticks.length impl.ticks.length)
     verdict id accepts viol.isEmpty viol ""
       [("first_diff_tick", firstDiff),
